@@ -31,6 +31,9 @@ Compute(c) == /\ Len(sess) < D
 SNext == \E c \in Space : Compute(c)
 SSpec == SInit /\ [][SNext]_svars
 HistoryIndependent == \A i \in DOMAIN sess : sess[i].carried = E!Enabled(sess[i].cfg)
+\* an inventory handed back is the caller's: what is computed later in the process (another flight, another fuel, another
+\* configuration) does not reach into it - every amount it held when it was returned it still holds at the end of the session
+InventoriesAreKept == [][\A i \in DOMAIN sess : sess'[i] = sess[i]]_svars
 
 \* (the argument mentions the state so that TLC does not fold the draw into a constant)
 WNext == \E c \in {RandomElement(IF Len(sess) >= 0 THEN E!Configs ELSE {})} : Compute(c)
